@@ -625,6 +625,14 @@ func sStoreWriters(c *Ctx, rule string) {
 // body contains the event, and checks that every path through the body, from
 // its first block back to the loop test, executes the event.
 func rangeBodyAlways(c *Ctx, rule string, fn *ssa.Function, key, ranged string, ev func(ssa.Instruction) bool, require string) {
+	rangeBodyAlwaysM(c, rule, fn, key, ranged, func(d string) bool { return d == ranged }, ev, require)
+}
+
+// rangeBodyAlwaysM is rangeBodyAlways with the ranged slice identified by a
+// matcher on its descriptor (accumulators whose phi shape depends on how the
+// filling loop is spelled).
+func rangeBodyAlwaysM(c *Ctx, rule string, fn *ssa.Function, key, rangedName string, isRanged func(string) bool, ev func(ssa.Instruction) bool, require string) {
+	ranged := rangedName
 	found := 0
 	engine.EachInstr(fn, func(in ssa.Instruction) {
 		ifi, ok := in.(*ssa.If)
@@ -633,10 +641,10 @@ func rangeBodyAlways(c *Ctx, rule string, fn *ssa.Function, key, ranged string, 
 		}
 		cd := c.P.CondOf(ifi.Cond)
 		isLoop := false
-		if cd.IsRel && cd.X == "idx(range)" && cd.Y == "len("+ranged+")" && cd.EdgeOrd(true) == engine.LT {
+		if cd.IsRel && cd.X == "idx(range)" && strings.HasPrefix(cd.Y, "len(") && strings.HasSuffix(cd.Y, ")") && isRanged(cd.Y[4:len(cd.Y)-1]) && cd.EdgeOrd(true) == engine.LT {
 			isLoop = true
 		}
-		if !cd.IsRel && cd.B == "more(range "+ranged+")" && !cd.Neg {
+		if !cd.IsRel && strings.HasPrefix(cd.B, "more(range ") && strings.HasSuffix(cd.B, ")") && isRanged(cd.B[11:len(cd.B)-1]) && !cd.Neg {
 			isLoop = true
 		}
 		if !isLoop {
